@@ -103,6 +103,24 @@ def cpp_facts():
     return facts
 
 
+def set_sites_sorted():
+    """C06: every loop over one of the type-name *sets* in the language back ends iterates
+    `sorted(<set>)`.  Returns (all sorted?, number of sites)."""
+    names = {"setOfClasses", "setOfProjectDependencies"}
+    n_sorted = n_raw = 0
+    for mod in ("LanguageCPP.py", "LanguageCsharp.py"):
+        tree = ast.parse(open(os.path.join(KOJEN, mod)).read())
+        for node in ast.walk(tree):
+            if isinstance(node, (ast.For, ast.comprehension)):
+                it = node.iter
+                if isinstance(it, ast.Name) and it.id in names:
+                    n_raw += 1
+                elif (isinstance(it, ast.Call) and isinstance(it.func, ast.Name) and it.func.id == "sorted" and it.args
+                      and isinstance(it.args[0], ast.Name) and it.args[0].id in names):
+                    n_sorted += 1
+    return (n_raw == 0 and n_sorted > 0), n_sorted + n_raw
+
+
 def template_files():
     out = []
     for ident, rel in TEMPLATE_DIRS:
@@ -150,6 +168,10 @@ def main():
     cf = cpp_facts()
     for k, v in sorted(cf.items()):
         facts.append("def %s : Bool := %s" % (k, "true" if v else "false"))
+    ok, nsites = set_sites_sorted()
+    facts.append("/-- every loop over a *set* of type names in LanguageCPP/LanguageCsharp iterates `sorted(...)` -/")
+    facts.append("def setSitesSorted : Bool := %s" % ("true" if ok else "false"))
+    facts.append("def setSiteCount : Nat := %d" % nsites)
     facts.append("")
     facts.append("end KojenVerif.Generated")
     changed = write_if_changed(os.path.join(GEN, "Facts.lean"), "\n".join(facts) + "\n")
